@@ -8,11 +8,11 @@ Local Open Scope Z_scope.
 Definition dbl (x : dy) : dy := (2 * fst x, (snd x + 1)%N).
 
 Lemma two_p_pos : forall e, 0 < two_p e.
-Proof. intros e. unfold two_p. apply Z.pow_pos_nonneg; lia. Qed.
+Proof. intros e. unfold two_p. apply Z.pow_pos_nonneg; [reflexivity|apply N2Z.is_nonneg]. Qed.
 Lemma two_p_add : forall a b, two_p (a + b) = two_p a * two_p b.
-Proof. intros a b. unfold two_p. rewrite N2Z.inj_add. apply Z.pow_add_r; lia. Qed.
+Proof. intros a b. unfold two_p. rewrite N2Z.inj_add. apply Z.pow_add_r; apply N2Z.is_nonneg. Qed.
 Lemma two_p_succ : forall e, two_p (e + 1) = 2 * two_p e.
-Proof. intros e. rewrite two_p_add. unfold two_p at 2. cbn. lia. Qed.
+Proof. intros e. rewrite two_p_add. change (two_p 1) with 2. lia. Qed.
 Lemma two_p_sub : forall e a, (a <= e)%N -> two_p (e - a) * two_p a = two_p e.
 Proof. intros e a H. rewrite <- two_p_add. f_equal. lia. Qed.
 
@@ -44,8 +44,14 @@ Proof.
   pose proof (two_p_pos (snd x)) as Px. pose proof (two_p_pos (snd y)) as Py. pose proof (two_p_pos e) as Pe.
   set (A := two_p (snd x)) in *. set (B := two_p (snd y)) in *. set (P := two_p e) in *.
   destruct (Z.leb_spec a b) as [L|L], (Z.leb_spec (fst x * B) (fst y * A)) as [R|R]; try reflexivity; exfalso.
-  - assert (a * A * B <= b * B * A) by nia. rewrite Ha, Hb in H. nia.
-  - assert (b * B * A < a * A * B) by nia. rewrite Ha, Hb in H. nia.
+  - assert (a * A * B <= b * B * A) as H1.
+    { replace (b * B * A) with (b * A * B) by ring. apply Z.mul_le_mono_nonneg_r; [lia|]. apply Z.mul_le_mono_nonneg_r; lia. }
+    rewrite Ha, Hb in H1. assert (P * (fst x * B) <= P * (fst y * A)) as H2 by lia.
+    apply Z.mul_le_mono_pos_l in H2; lia.
+  - assert (b * B * A < a * A * B) as H1.
+    { replace (b * B * A) with (b * A * B) by ring. apply Z.mul_lt_mono_pos_r; [lia|]. apply Z.mul_lt_mono_pos_r; lia. }
+    rewrite Ha, Hb in H1. assert (P * (fst y * A) < P * (fst x * B)) as H2 by lia.
+    apply Z.mul_lt_mono_pos_l in H2; lia.
 Qed.
 
 Lemma dy_eqb_char : forall x y, dy_eqb x y = Z.eqb (fst x * two_p (snd y)) (fst y * two_p (snd x)).
@@ -55,8 +61,14 @@ Proof.
   pose proof (two_p_pos (snd x)) as Px. pose proof (two_p_pos (snd y)) as Py. pose proof (two_p_pos e) as Pe.
   set (A := two_p (snd x)) in *. set (B := two_p (snd y)) in *. set (P := two_p e) in *.
   destruct (Z.eqb_spec a b) as [L|L], (Z.eqb_spec (fst x * B) (fst y * A)) as [R|R]; try reflexivity; exfalso.
-  - subst a. assert (fst x * P * B = fst y * P * A) by (rewrite <- Ha, <- Hb; ring). nia.
-  - apply L. assert (a * A * B = b * B * A) by (rewrite Ha, Hb; nia). nia.
+  - subst a. assert (P * (fst x * B) = P * (fst y * A)) as H1.
+    { replace (P * (fst x * B)) with (fst x * P * B) by ring. replace (P * (fst y * A)) with (fst y * P * A) by ring.
+      rewrite <- Ha, <- Hb. ring. }
+    apply Z.mul_reg_l in H1; lia.
+  - apply L. assert (a * A * B = b * B * A) as H1.
+    { rewrite Ha, Hb. replace (fst x * P * B) with (P * (fst x * B)) by ring. rewrite R. ring. }
+    assert ((A * B) * a = (A * B) * b) as H2 by lia.
+    apply Z.mul_reg_l in H2; [exact H2|]. assert (0 < A * B) by (apply Z.mul_pos_pos; lia). lia.
 Qed.
 
 Lemma dy_leb_dbl_l : forall x y, dy_leb (dbl x) y = dy_leb x y.
